@@ -1135,9 +1135,20 @@ def offlattice_mcmc(ctx, n):
             worst = max(worst, r[k])
             if not (r[k] <= OFF_TOL):
                 ctx.fail("C11.%s" % clause, r, detail={k: r[k]})
-        if r.get("second") == "answered" and not (r.get("dev_second", 1e9) <= OFF_TOL):
-            ctx.fail("C11.SecondSetupOnTheSameModelDescribesItsOwnData", r, detail={"dev_second": r.get("dev_second")})
         ctx.nontrivial(("realmcmc", r["seed"]))
-    ctx.notes["off_lattice_problems"] = len(res)
-    ctx.notes["off_lattice_largest_relative_deviation"] = worst
+    # the two setup_mcmc calls each problem made on ONE model, as a trace of spec/McmcModel.tla: the second call (another data set)
+    # must have been refused, or the model must now reproduce THAT data set's curve
+    mtr = []
+    for r in res:
+        if r["ok"] and r.get("second"):
+            first = {"data": 1, "outcome": "answered", "describes": 1 if r["dev_curve"] <= OFF_TOL else 0}
+            second = {"data": 2, "outcome": r["second"], "describes": (2 if r.get("dev_second", 1e9) <= OFF_TOL else 0) if r["second"] == "answered" else 1}
+            mtr.append({"id": "mcmcmodel-" + r["id"], "events": [first, second], "seed": int(r["seed"]),
+                        "dev_second": "%.3e" % r["dev_second"] if r.get("dev_second") is not None else "refused"})
+    ctx.model_check("McmcModel", "MC_McmcModel.cfg")
+    if mtr:
+        mv = ctx.validate("McmcModelTrace", mtr)
+        ctx.judge(mtr, mv, families=("C11.SecondSetup", "C11.FirstSetup", "H."))
+    ctx.notes["second_setup_calls"] = {"refused": sum(1 for t in mtr if t["events"][1]["outcome"] == "refused"),
+                                       "answered": sum(1 for t in mtr if t["events"][1]["outcome"] == "answered")}
     return res
